@@ -107,6 +107,7 @@ func (Engine) Shrink(plan interface{}, try func(interface{}) bool) interface{} {
 			func(p *Plan) bool { ok := p.Young; p.Young = false; return ok },
 			func(p *Plan) bool { ok := p.Bystander > 0; p.Bystander = 0; return ok },
 			func(p *Plan) bool { ok := p.Cfg.PYields; p.Cfg.PYields = false; return ok },
+			func(p *Plan) bool { ok := p.Cfg.PostYields; p.Cfg.PostYields = false; return ok },
 			func(p *Plan) bool { ok := p.Cfg.StallTask >= 0; p.Cfg.StallTask = -1; return ok },
 			func(p *Plan) bool {
 				ok := p.LossPm+p.MissPm+p.FlushPm > 0
